@@ -613,6 +613,13 @@ func (fr *Frame) builtin(st *State, b *ssa.Builtin, c *ssa.CallCommon, pos token
 		pre := st.clone()
 		fc.bulkCopy(st, pre, et, slArr(dst), slOff(dst), slArr(src), slOff(src), n)
 		return []Term{n}
+	case "StringData", "SliceData":
+		// unsafe.StringData(s) / unsafe.SliceData(s): the address of the first byte / element (strings
+		// are byte sequences over E_uint8, like []byte); nil for a string without backing array
+		sv := args[0]
+		nilp := mk(fmt.Sprintf("(is_PNull %s)", slArr(sv).S), SBool, nil)
+		ep := pElem(slArr(sv), slOff(sv))
+		return []Term{fc.define("sdata", mk(fmt.Sprintf("(ite %s PNull %s)", nilp.S, ep.S), SPtr, c.Signature().Results().At(0).Type()))}
 	case "Slice":
 		// unsafe.Slice(p, n): the n elements starting at *p, which is an element of an array
 		p, n := args[0], args[1]
